@@ -53,7 +53,7 @@ def gen_cases(tier, seed):
 
 
 def _gen_cases(tier, seed):
-    n = 260 if tier == "quick" else 9000
+    n = 700 if tier == "quick" else 9000
     for i in range(n):
         rng = common.rng_for("C09", seed, i)
         kind = ["rigid", "rigid", "lattice"][i % 3]
